@@ -886,7 +886,7 @@ def fser(f):
         return '(FRVec %s %s)' % (fser(f.functional), C.qs(vals(f.vector)))
     if t is Fm.FunctionalComp and type(f.right).__name__ == 'MatrixOperator':
         m = np.asarray(f.right.matrix)
-        return '(FCompM %s %d %s)' % (fser(f.left), m.shape[1], C.qss(m.tolist()))
+        return '(FCompM %s %s %d %s)' % (fser(f.left), C.qs(wts(f.right.range)), m.shape[1], C.qss(m.tolist()))
     raise Unsupported('no model for functional %s' % t.__name__)
 
 
@@ -929,7 +929,7 @@ def fgen(rng, X, depth):
     if k == 'rvec':
         return Fm.FunctionalRightVectorMult(fgen(rng, X, d), X.element(rvec(rng, n, zero_ok=False)))
     m = rng.choice([1, 2, 3])
-    Y = odl.rn(m)
+    Y = odl.rn(m) if rng.random() < 0.6 else odl.rn(m, weighting=rng.choice([2.0, 0.5]))
     return Fm.FunctionalComp(fgen(rng, Y, d),
                              odl.MatrixOperator(np.array([rvec(rng, n) for _ in range(m)]), domain=X, range=Y))
 
@@ -943,7 +943,10 @@ def functional_cases(rng, tier):
     tries = 0
     while len(cs.cases) < n_cases and tries < 30 * n_cases:
         tries += 1
-        X = odl.rn(rng.choice([1, 2, 2, 3]))
+        nn = rng.choice([1, 2, 2, 3])
+        X = rng.choice([odl.rn(nn), odl.rn(nn), odl.rn(nn, weighting=rng.choice([2.0, 0.5, 4.0])),
+                        odl.rn(nn, weighting=[rng.choice([1.0, 2.0, 0.5]) for _ in range(nn)]),
+                        odl.uniform_discr(0, nn / 4.0, nn)])
         try:
             with np.errstate(all='ignore'):
                 f = fgen(rng, X, rng.randint(0, maxd))
@@ -959,8 +962,8 @@ def functional_cases(rng, tier):
                 nums = [val, dd] + grad
                 if not _finite_small(nums):
                     continue
-                term = ('{| f_e := %s; f_x := %s; f_d := %s; f_val := %s; f_grad := %s; f_dd := %s; f_inner := %s |}'
-                        % (e, C.qs(vals(x)), C.qs(vals(d)), C.q(val), C.qs(grad), C.q(dd), C.b(inner)))
+                term = ('{| f_e := %s; f_w := %s; f_x := %s; f_d := %s; f_val := %s; f_grad := %s; f_dd := %s; f_inner := %s |}'
+                        % (e, C.qs(wts(X)), C.qs(vals(x)), C.qs(vals(d)), C.q(val), C.qs(grad), C.q(dd), C.b(inner)))
         except (ValueError, OverflowError, ZeroDivisionError):
             continue                  # non-finite number somewhere
         if len(term) > 60000:
@@ -969,11 +972,13 @@ def functional_cases(rng, tier):
     # L2Norm needs exact roots: Pythagorean points
     reps = 1 if tier == 'quick' else 4
     Fm = odl.solvers.functional.functional
-    for xs, vs in PYTH[:8]:
-        X = odl.rn(len(xs))
+    FP = [(odl.rn(len(xs_)), xs_) for xs_, _ in PYTH[:8]] + [(odl.rn(len(xs_), weighting=4.0), xs_) for xs_, _ in PYTH[:8]]
+    FP += [(odl.rn(2, weighting=[1.0, 4.0]), [3.0, 2.0]), (odl.uniform_discr(0, 1, 4), [3.0, 4.0, 0.0, 12.0]),
+           (odl.uniform_discr(0, 0.5, 2), [6.0, 8.0])]
+    for X, xs in FP:
         x = X.element(xs)
-        nx = math.sqrt(sum(a * a for a in xs))
-        if nx != int(nx):
+        nx = float(x.norm())
+        if 2 * nx != int(2 * nx) or nx == 0:
             continue
         N = S.L2Norm(X)
         for _ in range(reps):
@@ -988,8 +993,8 @@ def functional_cases(rng, tier):
                 if not _finite_small([val, dd] + grad):
                     continue
                 inner = type(D).__name__ == 'InnerProductOperator'
-                term = ('{| f_e := %s; f_x := %s; f_d := %s; f_val := %s; f_grad := %s; f_dd := %s; f_inner := %s |}'
-                        % (fser(f), C.qs(vals(x)), C.qs(vals(d)), C.q(val), C.qs(grad), C.q(dd), C.b(inner)))
+                term = ('{| f_e := %s; f_w := %s; f_x := %s; f_d := %s; f_val := %s; f_grad := %s; f_dd := %s; f_inner := %s |}'
+                        % (fser(f), C.qs(wts(X)), C.qs(vals(x)), C.qs(vals(d)), C.q(val), C.qs(grad), C.q(dd), C.b(inner)))
                 cs.add(term, {'functional': repr(f)[:300], 'x': vals(x)}, (term,))
     return cs
 
